@@ -18,6 +18,7 @@ THEOREMS = [
     "C13.amb_mirrors_first",
     "C13.amb2_mirrors_first",
     "C13.amb_unsub_losers_at_choice",
+    "C13.amb_nested_eq_flat",
 ]
 RULE = ("1..4 logged cold/hot sources (times on a 5-tick grid so that simultaneous notifications are frequent; empty, erroring, "
         "never-completing, 'rude' hot sources that keep pushing after unsubscription) under the real operator on TestScheduler, optional "
@@ -34,9 +35,9 @@ LEVEL_TEXT = ("Lean theorems for n sources and EVERY list of tagged events (all 
 "forwarding. Tied to /repo by replaying recorded event lists of generated real runs (1..4 cold/hot/rude sources, simultaneous notifications, dispose) and comparing outputs and "
 "subscribe/unsubscribe effects in same-instant order, plus property-text oracles.")
 LEVEL_NOTE = ("Model = RxModel/Comb.lean + RxModel/CombN.lean (zip: queues/is_completed; combine_latest: has_value/has_value_all/is_done/values; with_latest_from: NO_VALUE "
-"as none, children subscribed before the parent, parent first in the composite; fork_join; amb: n-ary fold of the binary operator FLATTENED to one machine "
-"(choice = first source to notify; loser disposal order k-1..0,k+1..n-1 and subscription order n-1..0 as produced by the nested binary operators - validated "
-"by the correspondence, not proved equal to the nested composition in Lean). All nine design theorems are proved at full strength for n sources and every event "
+"as none, children subscribed before the parent, parent first in the composite; fork_join; amb: both the NESTED composition of binary operators (ambNestedM: one `choice` per level, a notification enters at its "
+"level and climbs through the levels above) and its FLATTENED form (ambM: choice = first source to notify; loser disposal order k-1..0,k+1..n-1, subscription order n-1..0); "
+"amb_nested_eq_flat proves they produce identical effects for every n and every event list, and the correspondence replays half of the rx.amb cases through each). All nine design theorems are proved at full strength for n sources and every event "
 "list (cl_* need n >= 1, as the code raises otherwise); zip_kth's timing clause is 'number of outputs = min number of delivered elements at every prefix'. "
 "combine_latest's completion is not in the property text; the oracle only bounds it. Not modelled: sources notifying synchronously inside subscribe (the operators "
 "subscribe all sources first), futures. Threads are C43.")
@@ -95,7 +96,10 @@ def impl(case):
 
 def model_request(case):
     sp = cc.split_log(_run(case))
-    return {"op": case["op"], "n": case["n"], "events": [e for _, e in sp["events"]]}
+    op = case["op"]
+    if op == "amb" and case["n"] % 2 == 0:
+        op = "amb_nested"     # the nested composition of binary ambs (proved equal to the flattened machine: C13.amb_nested_eq_flat)
+    return {"op": op, "n": case["n"], "events": [e for _, e in sp["events"]]}
 
 
 def canon_impl(case, out):
